@@ -400,6 +400,10 @@ class Enc:
                 b += self.u(len(d.data), 'data%d.len' % k) + d.data
                 items.append(b)
             secs[11] = self.vec(items, 'datas')
+        # spec-equivalent spelling: absent vector sections written as present-but-empty (count 0)
+        for sid in getattr(m, 'empty_sections', ()):
+            if sid not in secs and sid in (1, 2, 4, 5, 6, 7, 9, 11) or (sid in (3, 10) and not m.funcs and sid not in secs):
+                secs[sid] = self.u(0, 'empty%d.count' % sid)
         order = [1, 2, 3, 4, 5, 6, 7, 8, 9, 12, 10, 11]
         def customs_at(pos):
             b = b''
